@@ -509,7 +509,7 @@ fn main() {
         res.cov("exhaustive", !capped);
         res.cov("preemption_bound", bound as u64);
         res.cov("workers", n as u64);
-        res.cov("rule", format!("threads R=[redirector_ready], L=[listener_started], K in 6 op sequences over key_latched / key_latch_ready_state_reset / provision_timeup, from the empty readiness set and (K variants [reset, latched] and [latched, reset]) from {} non-initial readiness sets, and 4 K variants with the secure channel already latched (initial_flags bit 7), 3 with a stale status.tag.tmp of an earlier run in the directory (bit 6), 2 (4) with a fourth thread Q that makes a status query concurrently with the updaters (bit 5: the error text of a query must be the complement of a readiness set in force at one of its own steps); every schedule with <= {bound} preemptions, one actor message per step; after every step: provision flags, finished tick and error text via the public getters; for schedules with <= 1 preemption also six real /provision HTTP queries (tick absent, 0, negative, far future, boundary before the step, first boundary, and the stamp itself -1 / +1 / +999 / +999999 ns); on a second listener whose key keeper handle has no actor (channel state unreadable) a far-future tick is never answered finished; after the default schedule of each configuration the real waiting client (ProvisionQuery, 4 polls) created after the last event; inotify on the tag directory; the status messages of redirector and key keeper are about 1 KiB long in every execution", if thorough { 7 } else { 3 }));
+        res.cov("rule", format!("threads R=[redirector_ready], L=[listener_started], K in 6 op sequences over key_latched / key_latch_ready_state_reset / provision_timeup, from the empty readiness set and (K variants [reset, latched] and [latched, reset]) from {} non-initial readiness sets, and 4 K variants with the secure channel already latched (initial_flags bit 7), 3 with a stale status.tag.tmp of an earlier run in the directory (bit 6), 2 (4) with a fourth thread Q that makes a status query concurrently with the updaters (bit 5: the error text of a query must be the complement of a readiness set in force at one of its own steps); every schedule with <= {bound} preemptions, one actor message per step; after every step: provision flags, finished tick and error text via the public getters; for schedules with <= 1 preemption also six real /provision HTTP queries (tick absent, 0, negative, far future, boundary before the step, first boundary, and the stamp itself -1 / +1 / +999 / +999999 ns); on a second listener whose key keeper handle has no actor (channel state unreadable) a far-future tick is never answered finished; after the default schedule of each configuration the real waiting client (ProvisionQuery, 4 polls) created after the last event; inotify on the tag directory; the status messages of redirector and key keeper are about 1 KiB long in every execution; plus 5 rewrites of an existing status tag under a file-size limit of 0 / 16 / 64 / 300 / 100000 bytes (the write fails part-way): the tag is wholly the previous or wholly the new text", if thorough { 7 } else { 3 }));
         std::process::exit(res.finish());
     }
     let (wi, wn) = me.unwrap();
@@ -522,6 +522,66 @@ fn main() {
         if f(&a) != f(&b) {
             vcommon::result::machinery(&format!("determinism gate failed:\n{}\n{}", f(&a), f(&b)));
         }
+    }
+    // the write of the status tag fails part-way (file-size limit as a stand-in for a full disk / quota): the tag on disk is
+    // wholly the previous text or wholly the new one
+    let mut write_fault_cases = 0u64;
+    let mut write_fault_problems: Vec<(String, String, Value)> = Vec::new();
+    if wi == 0 && std::env::var("VERIF_REPLAY").is_err() {
+        use gpa_harness::shared_state::agent_status_wrapper::AgentStatusModule;
+        unsafe { libc::signal(libc::SIGXFSZ, libc::SIG_IGN) };
+        for limit in [0u64, 16, 64, 300, 100000] {
+            let _ = std::fs::remove_file(format!("{keys_dir}/status.tag"));
+            let _ = std::fs::remove_file(format!("{keys_dir}/status.tag.tmp"));
+            let rt = tokio::runtime::Builder::new_current_thread().enable_all().build().unwrap();
+            let (old, mid, new) = rt.block_on(async {
+                let shared = SharedState::start_all();
+                let (prov, st) = (shared.get_provision_shared_state(), shared.get_agent_status_shared_state());
+                let _ = st.set_module_status_message(format!("first round: {}", "A".repeat(120)), AgentStatusModule::Redirector).await;
+                let _ = st.set_module_status_message(format!("first round: {}", "B".repeat(120)), AgentStatusModule::KeyKeeper).await;
+                provision::provision_timeup(None, prov.clone(), st.clone()).await;
+                let old = std::fs::read(format!("{keys_dir}/status.tag")).ok();
+                provision::key_latch_ready_state_reset(prov.clone()).await;
+                let _ = st.set_module_status_message(format!("second round: {}", "C".repeat(120)), AgentStatusModule::Redirector).await;
+                let _ = st.set_module_status_message(format!("second round: {}", "D".repeat(120)), AgentStatusModule::KeyKeeper).await;
+                let mut lim: libc::rlimit = unsafe { std::mem::zeroed() };
+                unsafe { libc::getrlimit(libc::RLIMIT_FSIZE, &mut lim) };
+                let saved = lim.rlim_cur;
+                lim.rlim_cur = limit as libc::rlim_t;
+                // (stdout / stderr of the engine are regular files too: parked on /dev/null while the limit is in force)
+                let (so, se, dn) = unsafe { (libc::dup(1), libc::dup(2), libc::open(b"/dev/null\0".as_ptr() as *const libc::c_char, libc::O_WRONLY)) };
+                unsafe {
+                    libc::dup2(dn, 1);
+                    libc::dup2(dn, 2);
+                    libc::setrlimit(libc::RLIMIT_FSIZE, &lim);
+                }
+                provision::provision_timeup(None, prov.clone(), st.clone()).await;
+                lim.rlim_cur = saved;
+                unsafe {
+                    libc::setrlimit(libc::RLIMIT_FSIZE, &lim);
+                    libc::dup2(so, 1);
+                    libc::dup2(se, 2);
+                    libc::close(so);
+                    libc::close(se);
+                    libc::close(dn);
+                }
+                let mid = std::fs::read(format!("{keys_dir}/status.tag")).ok();
+                provision::provision_timeup(None, prov.clone(), st.clone()).await;
+                let new = std::fs::read(format!("{keys_dir}/status.tag")).ok();
+                shared.cancel_cancellation_token();
+                (old, mid, new)
+            });
+            write_fault_cases += 1;
+            let show = |v: &Option<Vec<u8>>| v.as_ref().map(|b| format!("{} bytes {:?}", b.len(), String::from_utf8_lossy(&b[..b.len().min(40)]))).unwrap_or("absent".into());
+            if old.is_none() || old == new {
+                vcommon::result::machinery(&format!("write-fault family: the two rounds did not produce two different status tags ({} / {})", show(&old), show(&new)));
+            }
+            if mid != old && mid != new {
+                write_fault_problems.push(("status-tag-half-written:write-failed-part-way".into(), format!("files may grow to {limit} bytes while the tag is rewritten: before {}, afterwards {}, a write without fault gives {}", show(&old), show(&mid), show(&new)), json!({"family": "status-tag-write-fault", "file_size_limit": limit})));
+            }
+        }
+        let _ = std::fs::remove_file(format!("{keys_dir}/status.tag"));
+        let _ = std::fs::remove_file(format!("{keys_dir}/status.tag.tmp"));
     }
     let mut schedules = 0u64;
     let mut transitions = 0u64;
@@ -576,6 +636,10 @@ fn main() {
             break;
         }
     }
+    for (sig, what, case) in &write_fault_problems {
+        res.violation(sig, what, case.clone());
+    }
+    res.cov("status_tag_write_fault_cases", write_fault_cases);
     res.cov("states", schedules);
     res.cov("transitions", transitions);
     res.cov("traces_validated_against_impl", schedules);
